@@ -90,7 +90,7 @@ def judge_all(templates, results):
         if r.get('status') != 'ok': continue
         for pi, p in enumerate(r['paths']):
             for rec in p['records']:
-                for kind, step, detail in judge.judge_record(tmap[tname], rec):
+                for kind, step, detail in (judge.judge_model_record if getattr(tmap[tname], 'model', False) else judge.judge_record)(tmap[tname], rec):
                     out.append({'template': tname, 'hash_order': ho, 'path': pi, 'pattern': rec['pattern'], 'values': rec['values'],
                                 'kind': kind, 'prop': judge.KIND_PROP.get(kind, '?'), 'step': step, 'detail': detail})
     return out
